@@ -400,6 +400,7 @@ type ReplayFile struct {
 	Known    string        `json:"known,omitempty"`
 	Site     string        `json:"site,omitempty"`
 	Retries  int           `json:"retries,omitempty"` // native attempts (map-order dependent counterexamples)
+	Tier     string        `json:"tier,omitempty"`    // tier whose bounds (zz.Thorough) the harness ran with
 	Values   []ReplayValue `json:"values"`
 }
 
@@ -684,7 +685,7 @@ func doCheck(id, tier, only string, verbose bool, workers, seed int, noNative bo
 				order = append(order, key)
 			}
 			if len(g.replays) < 3 {
-				rf := ReplayFile{Property: id, Harness: s.Harness, Package: dirOf[s.Harness], Expect: f.Kind, Msg: f.Msg, Known: f.Known, Site: f.Site, Retries: retriesFor(f.Nondets), Values: modelValues(f.Nondets, f.Model)}
+				rf := ReplayFile{Property: id, Harness: s.Harness, Package: dirOf[s.Harness], Expect: f.Kind, Msg: f.Msg, Known: f.Known, Site: f.Site, Retries: retriesFor(f.Nondets), Tier: tier, Values: modelValues(f.Nondets, f.Model)}
 				p := filepath.Join(outDir, "replay", fmt.Sprintf("%s-%s-%d-%d.json", id, s.Harness, len(order), len(g.replays)))
 				b, _ := json.MarshalIndent(rf, "", " ")
 				os.WriteFile(p, b, 0644)
@@ -719,7 +720,7 @@ func doCheck(id, tier, only string, verbose bool, workers, seed int, noNative bo
 	var wits []wit
 	for _, s := range sums {
 		for i, wv := range s.Witnesses {
-			rf := ReplayFile{Property: id, Harness: s.Harness, Package: dirOf[s.Harness], Expect: "pass", Values: modelValues(wv.Nondets, wv.Model)}
+			rf := ReplayFile{Property: id, Harness: s.Harness, Package: dirOf[s.Harness], Expect: "pass", Tier: tier, Values: modelValues(wv.Nondets, wv.Model)}
 			if verbose && pinned != nil {
 				for _, o := range wv.Obs {
 					c, ok := canonObs(o.V, wv.Model)
